@@ -1,6 +1,6 @@
 SPECIFICATION Spec
 CONSTANTS
-  Cases <- TableCases
+  Cases <- ImplCases
   Expand <- McExpand
   Esc = "escape"
   Header = "dup"
